@@ -27,8 +27,13 @@ const UNIVERSE: [&str; 6] = ["z.", "sub.z.", "a.sub.z.", "b.z.", "other.", "deep
 #[derive(Clone, Copy, Debug, PartialEq, Eq)]
 enum FileKind {
     Valid,
+    /// valid, but validation reports a warning (MX exchange in the zone without an address)
+    ValidWarn,
     Syntax,
+    /// a fatal validation issue only (no apex NS)
     Semantic,
+    /// a fatal validation issue (no apex NS) together with a warning
+    SemanticWarn,
     Missing,
 }
 
@@ -56,6 +61,8 @@ fn zone_text(name: &str, version: u32, kind: FileKind) -> String {
         FileKind::Valid => format!("$ORIGIN {n}\n$TTL 60\n@ IN SOA ns hm {v} 3600 600 86400 60\n@ NS ns\nns A 192.0.2.1\nv TXT \"v{v}\"\n", n = name, v = version),
         // no apex NS: a semantic (validation) error
         FileKind::Semantic => format!("$ORIGIN {n}\n$TTL 60\n@ IN SOA ns hm {v} 3600 600 86400 60\nns A 192.0.2.1\nv TXT \"v{v}\"\n", n = name, v = version),
+        FileKind::ValidWarn => format!("$ORIGIN {n}\n$TTL 60\n@ IN SOA ns hm {v} 3600 600 86400 60\n@ NS ns\n@ MX 10 nomx\nnomx TXT \"no address here\"\nns A 192.0.2.1\nv TXT \"v{v}\"\n", n = name, v = version),
+        FileKind::SemanticWarn => format!("$ORIGIN {n}\n$TTL 60\n@ IN SOA ns hm {v} 3600 600 86400 60\n@ MX 10 nomx\nnomx TXT \"no address here\"\nns A 192.0.2.1\nv TXT \"v{v}\"\n", n = name, v = version),
         FileKind::Syntax => format!("$ORIGIN {n}\n$TTL 60\n@ IN SOA ns hm {v} 3600 600 86400 60\n@ NS ns (((\n", n = name, v = version),
         FileKind::Missing => String::new(),
     }
@@ -193,7 +200,7 @@ impl History {
                 match f.kind {
                     FileKind::Missing => failed_state,
                     _ if !f.touched && matches!(prev, State::Serving(_)) => prev,
-                    FileKind::Valid => State::Serving(f.version),
+                    FileKind::Valid | FileKind::ValidWarn => State::Serving(f.version),
                     _ => failed_state,
                 }
             };
@@ -258,7 +265,7 @@ pub fn run(ctx: &Ctx, rep: &mut Report) {
         // initial files and configuration
         let mut version = 1u32;
         for z in UNIVERSE.iter() {
-            let kind = *rng.pick(&[FileKind::Valid, FileKind::Valid, FileKind::Valid, FileKind::Syntax, FileKind::Semantic, FileKind::Missing]);
+            let kind = *rng.pick(&[FileKind::Valid, FileKind::Valid, FileKind::Valid, FileKind::ValidWarn, FileKind::Syntax, FileKind::Semantic, FileKind::SemanticWarn, FileKind::Missing]);
             h.files.insert(z.to_string(), ZoneFile { version, kind, touched: true, alt: false, staged: None });
             if kind != FileKind::Missing {
                 let _ = write_with_mtime(&dir.join(file_name(z)), &zone_text(z, version, kind), epoch);
@@ -336,7 +343,7 @@ pub fn run(ctx: &Ctx, rep: &mut Report) {
                     match rng.below(10) {
                         0..=2 => {
                             // new version of the file (valid or broken or removed)
-                            let kind = *rng.pick(&[FileKind::Valid, FileKind::Valid, FileKind::Valid, FileKind::Syntax, FileKind::Semantic, FileKind::Missing]);
+                            let kind = *rng.pick(&[FileKind::Valid, FileKind::Valid, FileKind::Valid, FileKind::ValidWarn, FileKind::Syntax, FileKind::Semantic, FileKind::SemanticWarn, FileKind::Missing]);
                             version += 1;
                             let f = h.files.get_mut(*z).unwrap();
                             f.version = version;
